@@ -60,7 +60,9 @@ def gen_cases(ctx):
         if spec is None:
             continue
         yield dict(mode="op", spec=spec, ops=[rng.choice(OPS) for _ in range(rng.choice([1, 2, 3]))], layout=rng.choice([None, "transposed", "slice", "expanded"]),
-                   shared=rng.random() < 0.2, seed=rng.randrange(1 << 30), mcs=rng.choice([None, None, "mid"]))
+                   shared=rng.random() < 0.2, seed=rng.randrange(1 << 30),
+                   # (structured sums / products: mostly with the Cholesky threshold between the size of the parts and of the whole)
+                   mcs=rng.choice([None, "mid", "mid", "mid"]) if spec["cls"] in ("KronAddedDiag", "SumKron", "Kron", "LowRankRootAddedDiag") else rng.choice([None, None, "mid"]))
 
 
 def _hostile(t, how):
